@@ -487,3 +487,11 @@ func execWAL(p walProg, c *hx.Case) error {
 func TestPropWAL(t *testing.T) {
 	hx.Run(t, hx.Spec{Prop: "C17", Rule: "Put/Delete/Cut/Truncate/Rotate sequences (<=50 ops) with contiguous sequence numbers and monotone Truncate arguments <= the latest Cut; every sealed writer is saved and read back with every start marker from the truncation point to the end, expecting exactly the later operations in order; non-trivial = >=2 rotates with >=1 truncate after a rotate"}, genWAL, execWAL)
 }
+
+func FuzzTable(f *testing.F) {
+	hx.Fuzz(f, hx.Spec{Prop: "C17"}, genTable, execTable)
+}
+
+func FuzzWAL(f *testing.F) {
+	hx.Fuzz(f, hx.Spec{Prop: "C17"}, genWAL, execWAL)
+}
